@@ -38,7 +38,7 @@ pub fn run(run: &mut Run) {
         for i in my_cases(rc, STREAM_RND, n_rnd, w, nw) {
             guarded(acc, "c07", STREAM_RND, i, |acc| {
                 let mut r = Rng::derive(seed, STREAM_RND, i);
-                let shape = r.usize(6);
+                let shape = r.usize(crate::shapes::N_SHAPES);
                 crate::with_shape!(shape, random_case(&mut r, acc, i, verbose));
             });
         }
